@@ -3,9 +3,9 @@
    Proofs/C14Roundtrip.v and Proofs/C14Double.v; the model is Model/Msg.v (+ Model/Double.v). *)
 From Coq Require Import List NArith ZArith Bool QArith Reals.
 From Flocq Require Import Core IEEE754.BinarySingleNaN.
-From Cedar Require Import Lib.Bytes gen.Consts Model.Msg Model.Double
+From Cedar Require Import Lib.Bytes gen.Consts Model.Msg Model.MsgLimit Model.Double
      Proofs.C14Reader Proofs.C14Writer Proofs.C14Layout Proofs.C14Roundtrip
-     Proofs.C14DoubleExact Proofs.C14Double Proofs.C14DoubleReal Proofs.C14Api.
+     Proofs.C14DoubleExact Proofs.C14Double Proofs.C14DoubleReal Proofs.C14Api Proofs.C14Audit.
 Import ListNotations.
 Local Open Scope Z_scope.
 
@@ -290,3 +290,62 @@ Theorem C14_entry_points_covered :
   uncovered_methods = [] /\ stale_entries = [] /\ doubly_listed = [].
 Proof. exact entry_points_covered. Qed.
 Print Assumptions C14_entry_points_covered.
+
+(* ======================================================================== *)
+(* Complementary cases of the hypotheses above (hypothesis audit, notes/C14.md).      *)
+
+(* Strings WITH NULs: the sender truncates at the first NUL (that is the format, see
+   C14_layout / fmt_cstr) and the reader returns exactly the part before it, for every
+   re-framing; the remaining conditions are on the truncated strings.            *)
+Theorem C14_roundtrip_truncating :
+  forall (encrypted : bool) (vs : list tval) (fs : list mframe),
+    Forall (fun v => valid encrypted (as_sent v)) vs ->
+    frames_ok false fs ->
+    concat (map fst fs) = concat (map fst (w_out (write_vals encrypted vs))) ->
+    run_ops encrypted (reader_of fs) (map op_of vs) = map (fun v => MOk (val_of (as_sent v))) vs.
+Proof. exact roundtrip_truncating. Qed.
+Print Assumptions C14_roundtrip_truncating.
+
+(* A string whose first byte is 0xAD is, on an encrypted stream, HTCondor's NULL string:
+   it is written like any other string and reads back as the empty string.  (0xAD is a
+   UTF-8 continuation byte, never the first byte of valid UTF-8: this delimits the
+   property's domain, it is not a defect.)                                        *)
+Theorem C14_null_marker :
+  forall (t rest : bytes),
+    Z.of_N (lenN (upto_nul (xad :: t))) + 1 < 2 ^ 31 ->
+    flat_string true (string_bytes true (xad :: t) ++ rest) = (rest, MOk []).
+Proof. exact null_marker_reads_empty. Qed.
+Print Assumptions C14_null_marker.
+
+(* The length hypothesis of C14_layout (fmt_ok) is exactly the condition under which
+   the writer accepts the string: since /repo 286e010 PutString / PutStringBytes refuse,
+   before writing anything, an encrypted-stream string whose length with terminator does
+   not fit the int32 prefix (Model/MsgLimit.v; checked on the real code at 2^31-2 / 2^31-1
+   bytes by the harness oracle string-length-prefix-limit).                        *)
+Theorem C14_string_accepted_iff :
+  forall (encrypted : bool) (w : writer) (s : bytes),
+    fmt_ok encrypted (WStr s) <-> put_string_go encrypted w s = Some (put_string encrypted w s).
+Proof. exact string_accepted_iff. Qed.
+Print Assumptions C14_string_accepted_iff.
+
+Theorem C14_string_bytes_accepted_iff :
+  forall (encrypted : bool) (w : writer) (s : bytes),
+    fmt_ok encrypted (WStrB s) <-> put_string_bytes_go encrypted w s = Some (put_string_bytes encrypted w s).
+Proof. exact string_bytes_accepted_iff. Qed.
+Print Assumptions C14_string_bytes_accepted_iff.
+
+Theorem C14_string_refused_iff :
+  forall (encrypted : bool) (w : writer) (s : bytes),
+    put_string_go encrypted w s = None <->
+    encrypted = true /\ 2 ^ 31 <= Z.of_nat (length (fmt_cstr s)).
+Proof. exact string_refused_iff. Qed.
+Print Assumptions C14_string_refused_iff.
+
+Example C14_truncating_nonvacuous :
+  Forall (fun v => valid true (as_sent v)) [TStr [x61; x00; x62]; TStrB [x00]; TInt64 5]
+  /\ map (fun v => val_of (as_sent v)) [TStr [x61; x00; x62]; TStrB [x00]] = [GvBytes [x61]; GvBytes []].
+Proof.
+  split; [|reflexivity].
+  repeat constructor; cbn; try discriminate; intros; try discriminate;
+    repeat constructor; try discriminate; try reflexivity.
+Qed.
